@@ -190,11 +190,28 @@ func addR152(w *World, r *Report, rule string) {
 			if base != "newShanghaiInstructionSet" {
 				bad = append(bad, "the table is not built on newShanghaiInstructionSet() (found "+base+")")
 			}
+			// every path of the constructor applies the enablers and the validation (directly, or through a fork
+			// helper that does so on every one of its paths)
+			ctor := w.Func(forkPath(pkVM), "newCancunInstructionSet")
+			var always func(f *ssa.Function, name string, depth int) bool
+			always = func(f *ssa.Function, name string, depth int) bool {
+				if f == nil || f.Blocks == nil || depth > 3 {
+					return false
+				}
+				return mustCallBeforeReturn(f, func(c ssa.CallInstruction) bool {
+					cal := c.Common().StaticCallee()
+					if cal == nil || !isForkPkg(cal.Pkg) {
+						return false
+					}
+					return cal.Name() == name || (cal != f && always(cal, name, depth+1))
+				}, nil) == nil
+			}
 			for _, need := range []string{"enable1153", "enable5656", "validate"} {
-				if !calls[need] {
-					bad = append(bad, need+" is not applied")
+				if !always(ctor, need, 0) {
+					bad = append(bad, need+" is not applied on every path")
 				}
 			}
+			_ = calls
 			if len(bad) > 0 {
 				r.violated(rule, key, w.pos(fd.Pos()), strings.Join(bad, "; "))
 			} else {
@@ -202,47 +219,66 @@ func addR152(w *World, r *Report, rule string) {
 			}
 		}
 	}
-	// NewEVMInterpreter: first case of the table switch is IsCancun -> &cancunInstructionSet
+	// NewEVMInterpreter: IsCancun is decided before every other fork rule and selects &cancunInstructionSet (on SSA:
+	// holds for a leading switch case as well as for an `if IsCancun { … } else { switch … }`)
 	{
 		key := "vm.NewEVMInterpreter/table-switch"
-		fd, _ := w.FuncDecl(forkPath(pkVM), "NewEVMInterpreter")
-		ok, why, pos := false, "no tag-less switch found", token.NoPos
-		if fd != nil {
-			ast.Inspect(fd.Body, func(n ast.Node) bool {
-				sw, isSw := n.(*ast.SwitchStmt)
-				if !isSw || sw.Tag != nil || len(sw.Body.List) == 0 || ok {
-					return true
+		fn := w.Func(forkPath(pkVM), "NewEVMInterpreter")
+		ok, why, pos := false, "no decision on IsCancun found", token.NoPos
+		ruleField := func(v ssa.Value) string {
+			u, isU := v.(*ssa.UnOp)
+			if !isU || u.Op != token.MUL {
+				return ""
+			}
+			fa, isFa := u.X.(*ssa.FieldAddr)
+			if !isFa {
+				return ""
+			}
+			if n := fieldNameOf(fa); strings.HasPrefix(n, "Is") && typeBaseName(fa.X.Type()) == "Rules" {
+				return n
+			}
+			return ""
+		}
+		if fn != nil {
+			var cancun *ssa.BasicBlock
+			for _, b := range fn.Blocks {
+				if iff, isIf := b.Instrs[len(b.Instrs)-1].(*ssa.If); isIf && ruleField(iff.Cond) == "IsCancun" {
+					cancun = b
+					pos = iff.Pos()
 				}
-				cc := sw.Body.List[0].(*ast.CaseClause)
-				pos = cc.Pos()
-				if len(cc.List) != 1 {
-					why = "first case has several conditions"
-					return false
-				}
-				sel, isSel := cc.List[0].(*ast.SelectorExpr)
-				if !isSel || sel.Sel.Name != "IsCancun" {
-					why = "the first case of the table switch does not test IsCancun: an earlier fork's table would shadow Cancun"
-					return false
-				}
-				assigned := false
-				for _, st := range cc.Body {
-					as, isAs := st.(*ast.AssignStmt)
-					if !isAs || len(as.Rhs) != 1 {
-						continue
+			}
+			if cancun != nil {
+				ok, why = true, ""
+				for _, b := range fn.Blocks {
+					if iff, isIf := b.Instrs[len(b.Instrs)-1].(*ssa.If); isIf && b != cancun && ruleField(iff.Cond) != "" && !cancun.Dominates(b) {
+						ok, why = false, "the decision on "+ruleField(iff.Cond)+" is not taken after the one on IsCancun: an earlier fork's table would shadow Cancun"
 					}
-					if u, isU := as.Rhs[0].(*ast.UnaryExpr); isU && u.Op == token.AND {
-						if id, isId := u.X.(*ast.Ident); isId && id.Name == "cancunInstructionSet" && isPkgLevel(info.Uses[id]) {
-							assigned = true
+				}
+				// on the true side the table that reaches the join is &cancunInstructionSet
+				t := cancun.Succs[0]
+				selected := false
+				for _, b := range fn.Blocks {
+					for _, ins := range b.Instrs {
+						phi, isPhi := ins.(*ssa.Phi)
+						if !isPhi {
+							continue
+						}
+						for k, e := range phi.Edges {
+							g, isG := e.(*ssa.Global)
+							if !isG || g.Name() != "cancunInstructionSet" {
+								continue
+							}
+							p := b.Preds[k]
+							if (p == cancun && t == b) || (len(t.Preds) == 1 && t.Dominates(p)) {
+								selected = true
+							}
 						}
 					}
 				}
-				if !assigned {
-					why = "the IsCancun case does not select &cancunInstructionSet"
-					return false
+				if ok && !selected {
+					ok, why = false, "the IsCancun side does not select &cancunInstructionSet"
 				}
-				ok = true
-				return false
-			})
+			}
 		}
 		if ok {
 			r.holds(rule, key, w.pos(pos), "IsCancun is tested first and selects &cancunInstructionSet")
@@ -342,6 +378,7 @@ func addR153(w *World, r *Report, rule string) {
 		if fn == nil {
 			r.undecided(rule, key, "-", "function not found")
 		} else {
+			retBad := ""
 			bad := "no return of calcMemSize64(start, Back(2)) found"
 			for _, b := range fn.Blocks {
 				for _, ins := range b.Instrs {
@@ -360,18 +397,39 @@ func addR153(w *World, r *Report, rule string) {
 					}
 					if call == nil {
 						bad = "the result is not the pair returned by calcMemSize64"
+						if retBad == "" {
+							retBad = bad
+						}
 						continue
 					}
 					cal := call.Call.StaticCallee()
 					if cal == nil || cal.Name() != "calcMemSize64" || len(call.Call.Args) != 2 {
 						bad = "the result is not the pair returned by calcMemSize64"
+						if retBad == "" {
+							retBad = bad
+						}
 						continue
 					}
 					if k, ok := backIndex(call.Call.Args[1]); !ok || k != 2 {
 						bad = "the length argument is not stack position 2"
+						if retBad == "" {
+							retBad = bad
+						}
+						continue
+					}
+					if k, direct := backIndex(call.Call.Args[0]); direct {
+						// one return per outcome of the comparison: this one must be on the side where position k is the larger
+						if why := largerOnThisSide(call.Block(), k); why != "" && retBad == "" {
+							retBad = why
+						}
+						bad = retBad
 						continue
 					}
 					bad = maxOfBack01(call.Call.Args[0])
+					if bad != "" && retBad == "" {
+						retBad = bad
+					}
+					bad = retBad
 				}
 			}
 			if bad != "" {
@@ -482,8 +540,61 @@ func dominatedByNonZero(b *ssa.BasicBlock, p ssa.Value) bool {
 	return false
 }
 
+// largerOnThisSide: block b is reached only through the side of a Gt/Lt comparison of stack positions 0 and 1
+// on which position k holds the larger value (ties go either way).
+func largerOnThisSide(b *ssa.BasicBlock, k int64) string {
+	for d := b; d != nil; d = d.Idom() {
+		id := d.Idom()
+		if id == nil {
+			break
+		}
+		iff, ok := id.Instrs[len(id.Instrs)-1].(*ssa.If)
+		if !ok || id.Succs[0] == id.Succs[1] {
+			continue
+		}
+		cmp, ok := iff.Cond.(*ssa.Call)
+		if !ok || cmp.Call.StaticCallee() == nil || len(cmp.Call.Args) != 2 {
+			continue
+		}
+		a, okA := backIndex(cmp.Call.Args[0])
+		c, okC := backIndex(cmp.Call.Args[1])
+		if !okA || !okC || a == c || a > 1 || c > 1 {
+			continue
+		}
+		var largerIfTrue int64
+		switch cmp.Call.StaticCallee().Name() {
+		case "Gt":
+			largerIfTrue = a
+		case "Lt":
+			largerIfTrue = c
+		default:
+			continue
+		}
+		onTrue := id.Succs[0] == d && len(d.Preds) == 1
+		onFalse := id.Succs[1] == d && len(d.Preds) == 1
+		switch {
+		case onTrue && k == largerIfTrue, onFalse && k == 1-largerIfTrue:
+			return ""
+		case onTrue || onFalse:
+			return "the start argument is the smaller of stack positions 0 and 1 on this side of the comparison"
+		}
+	}
+	return "the start argument is one stack position chosen without comparing positions 0 and 1"
+}
+
 // maxOfBack01: v is phi(Back(0), Back(1)) selected by a comparison of the two that picks the larger.
 func maxOfBack01(v ssa.Value) string {
+	// the choice may be made by a helper that returns the larger of its two arguments
+	if c, isCall := v.(*ssa.Call); isCall {
+		if h := c.Call.StaticCallee(); h != nil && isForkPkg(h.Pkg) && h.Blocks != nil && len(h.Params) == 2 && len(c.Call.Args) == 2 {
+			a, okA := backIndex(c.Call.Args[0])
+			b, okB := backIndex(c.Call.Args[1])
+			if !okA || !okB || a == b || a > 1 || b > 1 {
+				return "the helper choosing the start is not applied to stack positions 0 and 1"
+			}
+			return maxOfParams(h)
+		}
+	}
 	phi, ok := v.(*ssa.Phi)
 	if !ok || len(phi.Edges) != 2 {
 		return "the start argument is not a choice between stack positions 0 and 1"
@@ -547,6 +658,89 @@ func maxOfBack01(v ssa.Value) string {
 		return "cannot relate the comparison to the chosen start"
 	}
 	if chosenIfTrue != largerIfTrue {
+		return "the comparison selects the smaller of the two starts"
+	}
+	return ""
+}
+
+
+// maxOfParams: the two-parameter helper returns, on every path, one of its parameters, and the one it
+// returns when its Gt/Lt comparison of the two holds is the larger one.
+func maxOfParams(h *ssa.Function) string {
+	pidx := func(v ssa.Value) int {
+		for i, p := range h.Params {
+			if v == ssa.Value(p) {
+				return i
+			}
+		}
+		return -1
+	}
+	var iff *ssa.If
+	for _, b := range h.Blocks {
+		if x, ok := b.Instrs[len(b.Instrs)-1].(*ssa.If); ok {
+			if iff != nil {
+				return "the helper choosing the start has more than one branch"
+			}
+			iff = x
+		}
+	}
+	if iff == nil {
+		return "the helper choosing the start makes no comparison"
+	}
+	cmp, ok := iff.Cond.(*ssa.Call)
+	if !ok || cmp.Call.StaticCallee() == nil || len(cmp.Call.Args) != 2 {
+		return "the helper's condition is not a Gt/Lt comparison of its two arguments"
+	}
+	a, b := pidx(cmp.Call.Args[0]), pidx(cmp.Call.Args[1])
+	if a < 0 || b < 0 || a == b {
+		return "the helper's condition does not compare its two arguments"
+	}
+	larger := -1
+	switch cmp.Call.StaticCallee().Name() {
+	case "Gt":
+		larger = a
+	case "Lt":
+		larger = b
+	default:
+		return "the helper's condition is not a Gt/Lt comparison of its two arguments"
+	}
+	ib := iff.Block()
+	valueOn := func(succ *ssa.BasicBlock, other *ssa.BasicBlock) int {
+		// the parameter returned on the path through succ (a return block, or a join with a phi)
+		for _, blk := range h.Blocks {
+			ret, ok := blk.Instrs[len(blk.Instrs)-1].(*ssa.Return)
+			if !ok || len(ret.Results) != 1 {
+				continue
+			}
+			if blk == succ || (succ.Dominates(blk) && !other.Dominates(blk) && blk != other) {
+				if phi, isPhi := ret.Results[0].(*ssa.Phi); isPhi {
+					_ = phi
+					continue
+				}
+				return pidx(ret.Results[0])
+			}
+		}
+		// a join block with a phi
+		for _, blk := range h.Blocks {
+			ret, ok := blk.Instrs[len(blk.Instrs)-1].(*ssa.Return)
+			if !ok || len(ret.Results) != 1 {
+				continue
+			}
+			if phi, isPhi := ret.Results[0].(*ssa.Phi); isPhi && phi.Block() == blk {
+				for i, pr := range blk.Preds {
+					if pr == succ || (pr == ib && blk == succ) {
+						return pidx(phi.Edges[i])
+					}
+				}
+			}
+		}
+		return -1
+	}
+	t, f := valueOn(ib.Succs[0], ib.Succs[1]), valueOn(ib.Succs[1], ib.Succs[0])
+	if t < 0 || f < 0 || t == f {
+		return "the helper choosing the start does not return one argument on each side of its comparison"
+	}
+	if t != larger {
 		return "the comparison selects the smaller of the two starts"
 	}
 	return ""
